@@ -2753,3 +2753,29 @@ package sdf
 //@   invariant 1 forall k int :: done && 0 <= k && k <= rangeindex ==> p.vlist[k].vtype != pvArc
 //@   ensures [every-arc-mark-has-been-expanded] forall k int :: 0 <= k && k < len(p.vlist) ==> p.vlist[k].vtype != pvArc
 //@ end
+
+// C18, helical invariance: turning a point by phi about the axis and advancing it by
+// starts*pitch*phi/tau (= -lead*phi/tau; left-handed for negative starts) does not change
+// inside/outside of an untapered screw while both points are within its length. The one fact
+// about atan2 the axiom set does not contain - the angle of a vector turned by phi is the old
+// angle plus phi up to a whole number m of turns - is a stated hypothesis (listed under
+// assumptions); everything else is the real Evaluate.
+//@ lemma screw_helical_invariance(s *ScrewSDF3, p v3.Vec, phi real, n int, m int)
+//@   property C18
+//@   requires s.taper == 0 && s.pitch > 0
+//@   requires s.lead == -s.pitch*real(n)
+//@   prelet q = v3.Vec{cos(phi)*p.X - sin(phi)*p.Y, sin(phi)*p.X + cos(phi)*p.Y, p.Z - s.lead*phi/Tau}
+//@   requires math.Atan2(q.Y, q.X) == math.Atan2(p.Y, p.X) + phi + Tau*real(m)
+//@   assumes atan2 of a vector turned by phi is the old angle plus phi up to a whole number m of turns (true of math.Atan2 for some m in {-1,0,1} off the axis; not among the axioms of DESIGN 3.5)
+//@   requires abs(p.Z) <= s.length && abs(q.Z) <= s.length
+//@   let k = n*m
+//@   let cs = cos(phi)
+//@   let sn = sin(phi)
+//@   assert [unit-circle] sq(cs) + sq(sn) == 1
+//@   generalize cs
+//@   generalize sn
+//@   assert [same-distance-from-the-axis] q.X*q.X + q.Y*q.Y == p.X*p.X + p.Y*p.Y
+//@   assert [the-helix-coordinate-moves-by-whole-pitches] q.Z + s.lead*math.Atan2(q.Y, q.X)/Tau == p.Z + s.lead*math.Atan2(p.Y, p.X)/Tau + real(-k)*s.pitch
+//@   use sawtooth_periodic(p.Z + s.lead*math.Atan2(p.Y, p.X)/Tau, s.pitch, -k)
+//@   ensures [inside-outside-unchanged-along-the-helix] s.Evaluate(q) <= 0 <==> s.Evaluate(p) <= 0
+//@ end
